@@ -230,7 +230,39 @@ func VerifC12_MinVersion() {
 	}
 }
 
+// VerifC12_Protection: the jailing protection applies to validators holding MORE
+// than 25% of the bonded, unjailed power (and to the last active validator) and
+// to nobody else — in particular not to a validator holding exactly a quarter.
+func VerifC12_Protection() {
+	env := keeper.NewVEnv(100)
+	n := 4
+	powers := make([]int64, n)
+	total := int64(0)
+	for i := 0; i < n; i++ {
+		powers[i] = []int64{1, 2, 3}[sym.Choice("power", 3)]
+		env.Staking.Add(keeper.VVals[i], stakingtypes.Bonded, false, sdkmath.NewInt(powers[i]*1_000_000), powers[i])
+		total += powers[i]
+	}
+	t := sym.Choice("target", n)
+	err := env.K.Jail(env.Ctx, keeper.VVals[t], "missed keep-alive")
+	jailed := env.Staking.Find(keeper.VVals[t]).Jailed
+	protected := 4*powers[t] > total
+	if protected {
+		sym.Reach("protected")
+		sym.Assert(err != nil && !jailed, "validator-above-a-quarter-of-the-power-is-not-jailed")
+	} else {
+		sym.Reach("not-protected")
+		sym.Assert(err == nil && jailed, "validator-at-or-below-a-quarter-of-the-power-is-jailed")
+	}
+	for i := 0; i < n; i++ {
+		if i != t {
+			sym.Assert(!env.Staking.Find(keeper.VVals[i]).Jailed, "jailing-one-validator-jails-nobody-else")
+		}
+	}
+}
+
 var VerifEntries = map[string]func(){
+	"VerifC12_Protection": VerifC12_Protection,
 	"VerifC12_Liveness":   VerifC12_Liveness,
 	"VerifC12_Sentences":  VerifC12_Sentences,
 	"VerifC12_MinVersion": VerifC12_MinVersion,
